@@ -162,6 +162,158 @@ theorem add_unpin_fails_corner :
 theorem add_nopin_typed_ok :
     holds witAdd (runWith Gen.C12.methods Gen.C12.routes true witAdd { root := [7], items := [[7]] }) = true := by decide
 
+/-! ## Round 8: the relay set-up of `New` (transport, timeouts) interpreted by the model -/
+
+/-- the relay set-up regenerated from today's `New` is the frozen expectation: `http.DefaultTransport` with no field
+    set, shared with the header-extraction helper; the client-facing server takes its four timeouts from the
+    configuration fields of the same name and serves the (optionally traced) router behind the logging handler only -/
+theorem relay_setup_exact :
+    Gen.C12.relayTransport = .defaultTransport ∧
+    Gen.C12.relayTransportFields = [] ∧
+    Gen.C12.headerRoundTripper = "reverseProxy.Transport" ∧
+    Gen.C12.serverFields =
+      [("ReadTimeout", .cfg .readTimeout), ("WriteTimeout", .cfg .writeTimeout),
+       ("ReadHeaderTimeout", .cfg .readHeaderTimeout), ("IdleTimeout", .cfg .idleTimeout),
+       ("Handler", .other "handlers.LoggingHandler(writer, handler)"), ("MaxHeaderBytes", .other "cfg.MaxHeaderBytes")] ∧
+    Gen.C12.serverCalls = ["SetKeepAlivesEnabled(true)"] ∧
+    Gen.C12.handlerChain = ["router", "&ochttp.Handler{Handler: router}"] ∧
+    Gen.C12.relaySetupProblems = [] ∧
+    relaySetupUnderstood Gen.C12.relayTransport Gen.C12.relayTransportFields = true := by
+  decide
+
+/-- SEMANTIC tie: whatever the configuration, today's relay transport puts NO bound on the time the daemon takes to
+    start answering (no timeout shorter than the client's own patience cuts a relayed call) -/
+theorem relay_no_ttfb_bound (c : Timeouts) :
+    ttfbBound Gen.C12.relayTransport Gen.C12.relayTransportFields c = none := by
+  cases c; rfl
+
+/-- characterisation for EVERY understood set-up: the relay waits for ever iff it is the default transport, or a
+    transport literal whose `ResponseHeaderTimeout` is unset or evaluates to 0 under the configuration -/
+theorem ttfbBound_none_iff (k : Gen.C12.TransportKind) (fs : List (String × Gen.C12.Dur)) (c : Timeouts)
+    (hu : relaySetupUnderstood k fs = true) :
+    ttfbBound k fs c = none ↔
+      (k = .defaultTransport ∨ fieldVal fs "ResponseHeaderTimeout" = none ∨
+       ∃ d, fieldVal fs "ResponseHeaderTimeout" = some d ∧ durMs c d = some 0) := by
+  cases k with
+  | defaultTransport => simp [ttfbBound]
+  | unknown e => simp [relaySetupUnderstood] at hu
+  | transportLit =>
+    cases hf : fieldVal fs "ResponseHeaderTimeout" with
+    | none => simp [ttfbBound, hf]
+    | some d =>
+      cases d with
+      | other e => simp [relaySetupUnderstood, hf] at hu
+      | ms n => cases n <;> simp [ttfbBound, hf, durMs]
+      | cfg f =>
+        cases f <;> simp only [ttfbBound, hf, durMs] <;> split <;> simp_all
+
+/-- a set-up without a bound behaves, on EVERY request and for every daemon delay, exactly like the model without
+    the set-up (so all theorems about `runWith` carry over) -/
+theorem runT_eq_of_no_bound (k : Gen.C12.TransportKind) (fs : List (String × Gen.C12.Dur))
+    (h : ∀ c, ttfbBound k fs c = none) (mths : List String) (tbl : List Gen.C12.Route) (typed : Bool)
+    (i : Input) (obs : AddObs) :
+    runT k fs mths tbl typed i obs = runWith mths tbl typed i obs := by
+  unfold runT runWith timedOut
+  rw [h]
+  cases routeWith mths tbl i.method i.path <;> simp
+
+/-- today's code, for every request, every configuration of the four timeouts, every daemon delay and pause -/
+theorem runNow_eq_run (i : Input) (obs : AddObs) : runNow i obs = run i obs :=
+  runT_eq_of_no_bound _ _ relay_no_ttfb_bound _ _ _ i obs
+
+/-- a relayed call is answered with the daemon's answer HOWEVER slow the daemon is and whatever timeouts are
+    configured (name/publish, dht/*, cat of remote content …): all relay clauses hold -/
+theorem slow_daemon_relayed (i : Input) (obs : AddObs) (p : Bytes)
+    (hb : ∀ c ∈ i.path, c < 256) (hd : pctDecode false i.path = some p)
+    (hcls : classify i.method p = none) (hcl : isClean p = true) :
+    runNow i obs = relayOut i p ∧ (runNow i obs).status = i.env.dStatus ∧ holds i (runNow i obs) = true := by
+  have h := relay_identity typedUnpinNow i obs p hb hd hcls hcl
+  have e : runNow i obs = relayOut i p := by rw [runNow_eq_run]; exact h.1
+  exact ⟨e, by rw [e]; rfl, by rw [e]; exact h.2.2.2⟩
+
+/-- the whole property on today's model, set-up included (outside the three known corners) -/
+theorem runNow_holds_partial (i : Input) (obs : AddObs) (hwf : WF i obs) (hc : corner typedUnpinNow i = false) :
+    holds i (runNow i obs) = true := by
+  rw [runNow_eq_run]; exact run_holds_partial typedUnpinNow i obs hwf hc
+
+/-- the set-up a realistic edit introduces: a dedicated `http.Transport` whose `ResponseHeaderTimeout` follows the
+    proxy's `read_header_timeout` -/
+def headerTimeoutSetup : List (String × Gen.C12.Dur) :=
+  [("IdleConnTimeout", .cfg .idleTimeout), ("ResponseHeaderTimeout", .cfg .readHeaderTimeout)]
+
+/-- REFUTATION of that alternative, for ALL inputs: every relayed request (clean path) whose daemon needs longer
+    than a non-zero `read_header_timeout` and whose answer is not itself an empty 502 breaks `relay_response` -/
+theorem header_timeout_breaks_relay (typed : Bool) (i : Input) (obs : AddObs) (p : Bytes)
+    (hd : pctDecode false i.path = some p) (hcls : classify i.method p = none) (hcl : isClean p = true)
+    (hpos : 0 < i.env.cfg.readHeader) (hslow : i.env.cfg.readHeader < i.env.dDelay) (hst : i.env.dStatus ≠ 502) :
+    runT .transportLit headerTimeoutSetup Gen.C12.methods Gen.C12.routes typed i obs = gatewayOut i p ∧
+    holds i (runT .transportLit headerTimeoutSetup Gen.C12.methods Gen.C12.routes typed i obs) = false := by
+  have hroute := (route_spec i.method i.path p hd hcl).1 hcls
+  unfold route at hroute
+  have hb : ttfbBound .transportLit headerTimeoutSetup i.env.cfg = some i.env.cfg.readHeader := by
+    cases hc : i.env.cfg with
+    | mk rh idle rd wr =>
+      simp only [hc] at hpos
+      cases rh with
+      | zero => omega
+      | succ n => rfl
+  have hto : timedOut .transportLit headerTimeoutSetup i.env = true := by
+    simp [timedOut, hb, hslow]
+  have hrun : runT .transportLit headerTimeoutSetup Gen.C12.methods Gen.C12.routes typed i obs = gatewayOut i p := by
+    simp [runT, hroute, hto, hd]
+  refine ⟨hrun, ?_⟩
+  rw [hrun]
+  have : (502 == i.env.dStatus) = false := by
+    simp; exact fun h => hst h.symm
+  simp [holds, clauses, hd, hcls, gatewayOut, relayOut, this]
+
+/-- a concrete slow call: POST /api/v0/name/publish, read_header_timeout 300 ms, daemon answers after 600 ms -/
+def witSlow : Input :=
+  { method := "POST", path := b!"/api/v0/name/publish", query := some (b!"arg=x"), hdrs := [], body := [],
+    env := { dBody := [1, 2, 3], extractPath := b!"/api/v0/version", cfg := { readHeader := 300, idle := 200 }, dDelay := 600 } }
+
+example : classify witSlow.method (b!"/api/v0/name/publish") = none ∧ isClean (b!"/api/v0/name/publish") = true ∧
+    0 < witSlow.env.cfg.readHeader ∧ witSlow.env.cfg.readHeader < witSlow.env.dDelay ∧ witSlow.env.dStatus ≠ 502 := by decide
+
+/-- … today's model relays it (200 with the daemon's body), the edited set-up answers 502 -/
+theorem slow_witness :
+    (runNow witSlow {}).status = 200 ∧ (runNow witSlow {}).body = [1, 2, 3] ∧ holds witSlow (runNow witSlow {}) = true ∧
+    (runT .transportLit headerTimeoutSetup Gen.C12.methods Gen.C12.routes true witSlow {}).status = 502 := by decide
+
+/-- a bound that does not fire (daemon faster than the timeout, or timeout 0) leaves the relay alone, for ANY set-up -/
+theorem runT_eq_of_fast (k : Gen.C12.TransportKind) (fs : List (String × Gen.C12.Dur)) (mths : List String)
+    (tbl : List Gen.C12.Route) (typed : Bool) (i : Input) (obs : AddObs)
+    (h : ∀ t, ttfbBound k fs i.env.cfg = some t → i.env.dDelay ≤ t) :
+    runT k fs mths tbl typed i obs = runWith mths tbl typed i obs := by
+  have hto : timedOut k fs i.env = false := by
+    unfold timedOut
+    cases hb : ttfbBound k fs i.env.cfg with
+    | none => rfl
+    | some t => have := h t hb; simp; omega
+  unfold runT runWith
+  rw [hto]
+  cases routeWith mths tbl i.method i.path <;> simp
+
+/-- hijacked requests do not go through the relay transport's response path: the set-up never changes their answer -/
+theorem runT_hijack_indep (k : Gen.C12.TransportKind) (fs : List (String × Gen.C12.Dur)) (typed : Bool)
+    (i : Input) (obs : AddObs) (h : String) (arg : Option Bytes)
+    (hr : routeWith Gen.C12.methods Gen.C12.routes i.method i.path = .hijack h arg) :
+    runT k fs Gen.C12.methods Gen.C12.routes typed i obs = runWith Gen.C12.methods Gen.C12.routes typed i obs := by
+  simp [runT, hr]
+
+/-- Prop-level reading of the Bool checker: `holds` is exactly "every named clause is true" -/
+theorem holds_iff (i : Input) (o : Output) : holds i o = true ↔ ∀ c ∈ clauses i o, c.2 = true := by
+  simp [holds, List.all_eq_true]
+
+/-- the proxy keeps no state between requests in the model: the answer to a request sequence is the per-request
+    answer of each (memoryless), so every per-request theorem holds along every history -/
+theorem history_holds (l : List (Input × AddObs))
+    (h : ∀ x ∈ l, WF x.1 x.2 ∧ corner typedUnpinNow x.1 = false) :
+    ∀ x ∈ l.map (fun x => (x.1, runNow x.1 x.2)), holds x.1 x.2 = true := by
+  intro x hx
+  obtain ⟨y, hy, rfl⟩ := List.mem_map.1 hx
+  exact runNow_holds_partial y.1 y.2 (h y hy).1 (h y hy).2
+
 /-- a non-trivial input outside the corners: POST /api/v0/pin/add/<arg>?type=direct -/
 example : corner false { witAdd with path := b!"/api/v0/pin/add/x", query := some (b!"type=direct") } = false := by decide
 
